@@ -51,11 +51,11 @@ decode_any!(c05__decode_queries6, Queries, 6, 8);
 decode_any!(c05__decode_queries, Queries, 12, 14);
 //@ harness=c05__decode_ood_frame tier=quick kind=prove cap=900 :: OodFrame::read_from_bytes on every byte string <= 8 bytes
 decode_any!(c05__decode_ood_frame, OodFrame, 8, 10);
-//@ harness=c05__decode_fri_proof7 tier=quick kind=prove cap=900 :: FriProof::read_from_bytes on every byte string <= 7 bytes (layer count, u32 length prefix, remainder length, partition exponent)
+//@ harness=c05__decode_fri_proof7 tier=thorough kind=prove cap=3600 edge :: FriProof::read_from_bytes on every byte string <= 7 bytes (layer count, u32 length prefix, remainder length, partition exponent)
 decode_any!(c05__decode_fri_proof7, FriProof, 7, 9);
 //@ harness=c05__decode_fri_proof tier=thorough kind=prove cap=7200 edge :: FriProof::read_from_bytes on every byte string <= 14 bytes (edge: exceeded the quick cap)
 decode_any!(c05__decode_fri_proof, FriProof, 14, 16);
-//@ harness=c05__decode_batch_merkle_proof4 tier=quick kind=prove cap=900 :: BatchMerkleProof::<XH>::read_from_bytes on every byte string <= 4 bytes (depth byte, vint node-vector count up to 2^21, nested vint length)
+//@ harness=c05__decode_batch_merkle_proof4 tier=thorough kind=prove cap=3600 edge :: BatchMerkleProof::<XH>::read_from_bytes on every byte string <= 4 bytes (depth byte, vint node-vector count up to 2^21, nested vint length)
 decode_any!(c05__decode_batch_merkle_proof4, BatchMerkleProof<H17>, 4, 6);
 //@ harness=c05__decode_batch_merkle_proof tier=thorough kind=prove cap=7200 edge :: BatchMerkleProof::<XH>::read_from_bytes on every byte string <= 12 bytes (edge: did not finish in 1800 s)
 decode_any!(c05__decode_batch_merkle_proof, BatchMerkleProof<H17>, 12, 14);
